@@ -402,7 +402,7 @@ def status_then_call(ctx):
     inst = dict(acs=[dict(id=0, modes=0x1F, fans=0xFF, lo=18, hi=32, lo_heat=16, hi_heat=28, zones=[0, 1], mode=4)],
                 zones={0: dict(sensor=True, ctrl=1), 1: dict(sensor=False)})
     for passes in (4, 5, 8):        # (the report has been handed to the client's handler by then: two passes are enough on the unchanged code)
-        for err in (0, 5):
+        for err in (0, 5, 55):      # (55: the unit has been in fault for a while - an earlier report, mode COOL, carried the error code already)
             env = fullstack.Env(5, dict(inst=inst))
             loop = env.loop
             loop.max_passes = 500000
@@ -420,8 +420,12 @@ def status_then_call(ctx):
                 await asyncio.sleep(4 * TICK)
                 conn = env.net.conns[-1]
                 ac = list(env.at.air_conditioners)[0]
+                if err == 55:
+                    w0 = consolesim.at5_ac_status([dict(id=0, power=1, mode=4, fan=0, setpoint=120, temp=235, err=5)]).split()
+                    conn.peer_send(env.frame(int(w0[1], 16), bytes.fromhex(w0[2])))
+                    await asyncio.sleep(8 * TICK)
                 conn.block_writes()
-                w = consolesim.at5_ac_status([dict(id=0, power=1, mode=1, fan=0, setpoint=120, temp=235, err=err)]).split()
+                w = consolesim.at5_ac_status([dict(id=0, power=1, mode=1, fan=0, setpoint=120, temp=235, err=5 if err == 55 else err)]).split()
                 conn.peer_send(env.frame(int(w[1], 16), bytes.fromhex(w[2])))
                 for _ in range(passes):
                     await asyncio.sleep(0)
